@@ -3,7 +3,7 @@
 # (and of the extra properties listed below), undoes it; writes one line per (seed, property) to stdout.
 cd /verif
 R=${SEED_REPO:-/repo}
-declare -A EXTRA=( [C03-B]="C01" [C04-A]="C17" [C09-B]="C12" [C11-B]="C10" [C13-A]="C20" [C13-B]="C20" )
+declare -A EXTRA=( [C03-B]="C01" [C04-A]="C17" [C09-B]="C12" [C11-B]="C10" [C13-A]="C20" [C13-B]="C20" [C05-C]="C08" [C07-C]="C08" [C07-D]="C08" [C09-D]="C12" [C02-D]="C01" [C19-C]="C07" [C11-C]="C10" )
 seeds="$@"
 [ -z "$seeds" ] && seeds=$(ls seeded | sort)
 for S in $seeds; do
